@@ -79,3 +79,37 @@ Proof.
   exact (fun ops l H => f_equal snd (log_script_correct_inst ops l H)).
 Qed.
 Print Assumptions C09_log_reader_total.
+
+(** * Pending background work is always somebody's job ([model/Work.v]: the scheduled flag, the
+    task queue of the compaction thread and every place that consults should_schedule_compaction) *)
+From RainVerif.model Require Import Work.
+From RainVerif.proofs Require Import WorkProofs.
+
+Theorem C09_work_inv_reachable : forall needs0 acts, work_inv_b (wrun needs0 acts) = true.
+Proof. exact work_inv_reachable. Qed.
+Print Assumptions C09_work_inv_reachable.
+
+Theorem C09_pending_work_has_a_task : forall needs0 acts,
+  let s := wrun needs0 acts in
+  w_bad s = false -> w_shut s = false ->
+  (w_imm s || w_manual s || w_needs s) = true ->
+  w_sched s = true /\ (1 <= w_tasks s)%nat.
+Proof. exact pending_work_has_a_task. Qed.
+Print Assumptions C09_pending_work_has_a_task.
+
+Theorem C09_a_successful_round_flushes : forall s needs,
+  work_inv_b s = true -> w_bad s = false -> w_shut s = false -> w_imm s = true -> w_running s = false ->
+  w_imm (wstep (wstep s WBgStart) (WBgDone true needs)) = false.
+Proof. exact a_successful_round_flushes. Qed.
+Print Assumptions C09_a_successful_round_flushes.
+
+Theorem C09_clients_never_unschedule : forall s a,
+  (forall ok n, a <> WBgDone ok n) -> w_sched s = true -> w_sched (wstep s a) = true.
+Proof. exact clients_never_unschedule. Qed.
+Print Assumptions C09_clients_never_unschedule.
+
+Theorem C09_work_inv_dump_of : forall s,
+  work_inv_b s = true -> w_shut s = false ->
+  work_inv_dump (w_sched s) (w_imm s) (w_manual s) (w_needs s) (w_bad s) = true.
+Proof. exact work_inv_dump_of. Qed.
+Print Assumptions C09_work_inv_dump_of.
